@@ -16,7 +16,8 @@
 // and whether script code is evaluated while the operation is entered (a call of …GetValue( / …Call( ): there a Go panic can
 // come out of the region, so only `deferred` is safe. Methods that are themselves named like the operation and
 // only pass it on (TempVM.EnterCall → vm.Base.EnterCall) are listed as forwarders. The definitions of the counter
-// operations (++ / -- on a field) are listed with their net effect. go/ast only; nothing is executed.
+// operations (++ / -- on a field, or the atomic spelling X.Add(±n) / atomic.AddInt64(&X, ±n)) are listed with
+// their net effect. go/ast only; nothing is executed.
 package main
 
 import (
@@ -400,16 +401,63 @@ func recvName(fd *ast.FuncDecl) string {
 	return strings.TrimPrefix(ex.TypeString(fd.Recv.List[0].Type), "*")
 }
 
-// net effect of a function on the counters it increments / decrements: field → delta
+// a constant integer argument: `1`, `-1`, `+2`
+func constInt(e ast.Expr) (int, bool) {
+	switch t := e.(type) {
+	case *ast.ParenExpr:
+		return constInt(t.X)
+	case *ast.BasicLit:
+		if t.Kind == token.INT {
+			n := 0
+			if _, err := fmt.Sscanf(t.Value, "%d", &n); err == nil {
+				return n, true
+			}
+		}
+	case *ast.UnaryExpr:
+		if n, ok := constInt(t.X); ok {
+			switch t.Op {
+			case token.SUB:
+				return -n, true
+			case token.ADD:
+				return n, true
+			}
+		}
+	}
+	return 0, false
+}
+
+// net effect of a function on the counters it increments / decrements: field → delta. Counter arithmetic is
+// `X++` / `X--`, or its atomic spelling: `X.Add(±n)` on an atomic.Int32/Int64/Uint… field and
+// `atomic.AddInt64(&X, ±n)` (after aff39ef VM.callDepth is an atomic.Int64).
 func counterDeltas(fd *ast.FuncDecl) map[string]int {
 	res := map[string]int{}
 	ast.Inspect(fd.Body, func(x ast.Node) bool {
-		if id, ok := x.(*ast.IncDecStmt); ok {
+		switch t := x.(type) {
+		case *ast.IncDecStmt:
 			d := 1
-			if id.Tok == token.DEC {
+			if t.Tok == token.DEC {
 				d = -1
 			}
-			res[path(id.X)] += d
+			res[path(t.X)] += d
+		case *ast.CallExpr:
+			se, ok := t.Fun.(*ast.SelectorExpr)
+			if !ok {
+				break
+			}
+			switch {
+			case se.Sel.Name == "Add" && len(t.Args) == 1 && path(se.X) != "atomic":
+				if n, ok := constInt(t.Args[0]); ok {
+					if _, isSel := se.X.(*ast.SelectorExpr); isSel { // a field: vm.callDepth.Add(1)
+						res[path(se.X)] += n
+					}
+				}
+			case path(se.X) == "atomic" && strings.HasPrefix(se.Sel.Name, "Add") && len(t.Args) == 2:
+				if u, ok := t.Args[0].(*ast.UnaryExpr); ok && u.Op == token.AND {
+					if n, ok := constInt(t.Args[1]); ok {
+						res[path(u.X)] += n
+					}
+				}
+			}
 		}
 		return true
 	})
